@@ -131,6 +131,11 @@ def solve_fixed_point_steffensen(
         for i in range(max_iters):
             x1 = func(x0)
             x2 = func(x1)
+            if not (np.all(np.isfinite(x1)) and np.all(np.isfinite(x2))):
+                # An infinite iterate would give an infinite denominator and so a zero
+                # update, which would be mistaken for convergence at x0
+                msg = f"Fixed point iteration diverged on iteration {i}."
+                raise ConvergenceError(msg)
             denom = x2 - 2 * x1 + x0
             # Set any zero values in denominator of update term to smalllest
             # floating point value to prevent divide-by-zero errors
